@@ -371,11 +371,22 @@ func contractKeys(fn *types.Func) []string {
 // scoped: the one written in the caller's package wins, then the one written in the callee's own package; a trusted
 // contract written in an unrelated package is not used (each property states its own closed-world assumptions).
 func (p *Program) contractFor(fn *types.Func) *Contract {
+	c := p.contractFor0(fn)
+	if os.Getenv("GOVC_DEBUG_CONTRACT") != "" && c != nil && c.Kind != "func" {
+		fmt.Fprintf(os.Stderr, "contractFor %s (top %s) -> %s %s:%d\n", fn.FullName(), p.topPkgName, c.Kind, c.File, c.Line)
+	}
+	return c
+}
+
+func (p *Program) contractFor0(fn *types.Func) *Contract {
 	keys := contractKeys(fn.Origin())
 	short := keys[len(keys)-1]
 	if p.topPkgName != "" {
-		if c, ok := p.contracts[p.topPkgName+"."+short]; ok && c.Kind != "func" {
-			return c
+		// trusted contracts declared in the contract file of the package under verification win over everybody else's
+		for i := len(keys) - 1; i >= 0; i-- {
+			if c, ok := p.contracts[p.topPkgName+"."+keys[i]]; ok && c.Kind != "func" && (p.topPkgPath == "" || c.PkgPath == p.topPkgPath) {
+				return c
+			}
 		}
 	}
 	for _, k := range keys {
